@@ -70,6 +70,44 @@ def cloneLegacyEntry (keys : List Obj) (ρ : Obj → Obj) (bindTo : Option Obj) 
     | none => (ρ k, r.1)
   else (k, v)
 
+/-- the legacy branch of the loop of `Layer.clone` (highlevelgraph.py 279-284) with the flag it contributes to
+    `bound`: `((new key, new value), was the blocker injected here?)`; its first component is `cloneLegacyEntry` -/
+def cloneLegacyEntryB (keys : List Obj) (ρ : Obj → Obj) (bindTo : Option Obj) (bindFn : Obj) (k v : Obj) : (Obj × Obj) × Bool :=
+  if keys.contains k then
+    let r := cloneValue keys ρ v
+    match bindTo with
+    | some b => if r.2 then ((ρ k, r.1), false) else ((ρ k, .tuple [bindFn, r.1, b]), true)
+    | none => ((ρ k, r.1), false)
+  else ((k, v), false)
+
+/-- `Layer.clone(keys, seed, bind_to)` on a layer of legacy values: `(MaterializedLayer(dsk_new), bound)`.
+    (`dsk_new` is a dict: the list agrees with it as long as the new keys do not collide — freshness of `clone_key`.) -/
+def cloneLegacyLayer (keys : List Obj) (ρ : Obj → Obj) (bindTo : Option Obj) (bindFn : Obj) (g : LGraph) : LGraph × Bool :=
+  (g.map fun kv => (cloneLegacyEntryB keys ρ bindTo bindFn kv.1 kv.2).1,
+   g.any fun kv => (cloneLegacyEntryB keys ρ bindTo bindFn kv.1 kv.2).2)
+
+/-- the substitution `Layer.clone` hands to `GraphNode.substitute` (highlevelgraph.py 269-273):
+    `subs = {dep: clone_key(dep, seed) for dep in value.dependencies if dep in keys}`, identity elsewhere -/
+def keyedRho (keys : List Obj) (ρ : Obj → Obj) : Obj → Obj := fun k => if keys.contains k then ρ k else k
+
+/-- `is_leaf = not subs`: the node references no key that is being replaced -/
+def specLeaf (keys : List Obj) (n : Node) : Bool := !(n.deps.any fun d => keys.contains d)
+
+/-- one iteration of the loop of `Layer.clone` on a task-spec node (highlevelgraph.py 263-278, `GraphNode` branch):
+    `((new key, new value), was the blocker injected here?)` -/
+def cloneSpecEntry (keys : List Obj) (ρ : Obj → Obj) (bindTo : Option Obj) (k : Obj) (n : Node) : (Obj × Node) × Bool :=
+  if keys.contains k then
+    let n' := renameNode (keyedRho keys ρ) n
+    match bindTo with
+    | some b => if specLeaf keys n then ((ρ k, bindNode b n'), true) else ((ρ k, n'), false)
+    | none => ((ρ k, n'), false)
+  else ((k, n), false)
+
+/-- `Layer.clone(keys, seed, bind_to)` on a layer of task-spec nodes: `(MaterializedLayer(dsk_new), bound)` -/
+def cloneSpecLayer (keys : List Obj) (ρ : Obj → Obj) (bindTo : Option Obj) (g : NGraph) : NGraph × Bool :=
+  (g.map fun kn => (cloneSpecEntry keys ρ bindTo kn.1 kn.2).1,
+   g.any fun kn => (cloneSpecEntry keys ρ bindTo kn.1 kn.2).2)
+
 /-- `while split_every and len(map_keys) > split_every:` of `_checkpoint_one`;
     returns the reduce layer as `(key, inputs)` in insertion order, the last entry is `name`. `mk i` = `(name, i)`. -/
 def checkpointReduce (name : Obj) (mk : Nat → Obj) (se : Nat) : Nat → List Obj → List (Obj × List Obj) → List (Obj × List Obj)
